@@ -24,7 +24,9 @@ def scratch_copy() -> str:
 
 
 def patch_path(name: str) -> str:
-    if os.path.exists(name):
+    if os.path.isdir(name) and os.path.exists(os.path.join(name, "patch.diff")):
+        return os.path.abspath(os.path.join(name, "patch.diff"))
+    if os.path.isfile(name):
         return os.path.abspath(name)
     for cand in (os.path.join(VERIF, "mutants", name + ".patch"), os.path.join(VERIF, "seeded", name, "patch.diff")):
         if os.path.exists(cand):
